@@ -17,7 +17,7 @@ CHECKS = {
         "histories of check/run operations on one machine (repeats, another legal ordering or a superset pipeline "
         "checked first or in between, the checked configuration run on a brand-new machine); verdicts are compared with "
         "the documented automaton, the "
-        "executed callbacks and plugin-method calls (order, count, side) with a reference history model, machine "
+        "executed callbacks and plugin-method calls (order, count, side; for filter steps also the parameters of the object called) with a reference history model, machine "
         "state/transitions after every operation, and repeats must be identical. Sampling, not proof.",
         note="trusts: transitions' dispatch by callback name (probes are instance attributes), identity stubs for the "
         "two plugin-only step kinds, the DFA transcribed from docs/source/userguide/sequencing.rst",
